@@ -5,6 +5,7 @@ A defective miniature of backup/archive.py + encryption.py in one file:
   R2  decrypt takes the nonce from [SALT_LENGTH : SALT_LENGTH + SALT_LENGTH]
   R3  manifest flag `is not None`, writer branch by truthiness
   R4  the reader asks the manifest for a key the writer never writes; the meta reader asks for `gen`
+  R5  the reader strips the password before decrypting, the writer encrypts with it verbatim
 """
 import io
 import json
@@ -90,7 +91,7 @@ def read_backup_archive(data, encryption_password=None):
                 deploy_name = name.removesuffix(".secret.enc")
                 if not encryption_password:
                     raise ValueError("password needed")
-                secret_files[deploy_name] = yaml.safe_load(decrypt(content, encryption_password))
+                secret_files[deploy_name] = yaml.safe_load(decrypt(content, encryption_password.strip()))
             elif name.endswith(".secret.yaml"):
                 deploy_name = name.removesuffix(".secret.yaml")
                 secret_files[deploy_name] = yaml.safe_load(content)
